@@ -4,7 +4,7 @@
    through, and the process alive after hostile traffic. *)
 From Coq Require Import List ZArith Bool.
 Require Import MTX.Lib.PathClean MTX.Model.C34_Descriptors.
-Require Export MTX.Model.C35_PreAuth.
+Require Export MTX.Model.C35_PreAuth MTX.Model.C35_SessionConc.
 Import ListNotations.
 Local Open Scope Z_scope.
 
@@ -17,6 +17,21 @@ Definition rp (n : Z) (u : list Z) : list Z := rp_nat (Z.to_nat n) u.
 Inductive obs :=
 | OPanic
 | ORes (status : Z) (names : list (list Z * bool)) (tag : Z).
+
+(* ---- raced MoQ sessions: what the driver did and saw --------------------------------------------------- *)
+
+Inductive action :=
+| AStart (i : nat) | AFeed (i : nat) | AEof (i : nat) | ACancel
+| AHold | ARelease.             (* the driver takes / releases s.mutex *)
+
+Record tobs := TO {
+  o_res : option err;           (* None: did not return (panicked, or still blocked at the end) *)
+  o_panic : bool;
+  o_wrote : list Z;             (* messages written to its stream, in order *)
+  o_pm : option (list Z * list Z * bool);
+  o_snap : option (sstate * list Z * list Z)
+}.
+Record gobs := GO { f_st : sstate; f_name : list Z; f_query : list Z; f_setup : bool; f_ready : bool; f_ctx : bool }.
 
 Inductive case :=
   (* httpp.handlerFilterRequests on a request with this URL.Path: did it call the next handler? *)
@@ -43,7 +58,12 @@ Inductive case :=
 | CRtsp (ctx_path : list Z) (status : Z)
   (* crash oracle (testing): after the hostile traffic described in desc, is the process alive and does
      every listener still answer a well-formed request? *)
-| CCrash (listener : Z) (alive : bool) (answers : bool).
+| CCrash (listener : Z) (alive : bool) (answers : bool)
+  (* a real MoQ session (created by the real Server on a scripted connection), its stream handlers / apiItem / Close
+     started in goroutines and driven through `script` (the driver holds s.mutex, lets handlers run into it, releases
+     it; bytes arrive, streams end, the context is cancelled); per handler what it returned / wrote / asked the path
+     manager / read, and the session's final state *)
+| CMoqRace (c : cfg) (name query : list Z) (ss : list stream) (script : list action) (obs : list tobs) (fin : gobs).
 
 (* ---- expected observation from a model outcome (the fake path manager of the drivers refuses every
         request with a plain error, so a front end answers 500 after its first call) ---------------- *)
@@ -131,6 +151,155 @@ Definition exp_rtsp (ctx_path : list Z) : res Z :=
   | Some name => ok <- gate name ;; Ok (if ok then 404 else 400)
   end.
 
+(* ---- raced MoQ sessions: every outcome the model allows for a script ------------------------------------------ *)
+
+Definition bz (b : bool) : Z := if b then 1 else 0.
+Definition nz (n : nat) : Z := Z.of_nat n.
+Definition err_code (e : err) : Z :=
+  match e with
+  | ENil => 1 | EParse => 2 | EVersion => 3 | EWTPath => 4 | EWTAuthority => 5 | EMissingPath => 6 | EInvalidPath => 7
+  | EEmptyPath => 8 | EDupSetup => 9 | EExpectedClientSetup => 10 | ETerminated => 11 | EUnsupportedStream => 12
+  | EUnsupportedMsg => 13 | EUnexpectedSubscribe => 14 | EUnexpectedPublish => 15 | EBadTrackName => 16
+  | EStreamNotReady => 17 | ETrackRange => 18 | EPM => 19 | ECatalogJSON => 20 | ECatalogMany => 21 | ECatalogDup => 22
+  | EToStream => 23 | ESubCatalogClosed => 24 | EPubCatalogClosed => 25 | EPubTrackClosed => 26 | ETrackNotFound => 27
+  | EBeyondModel => 28
+  end.
+Definition st_code (s : sstate) : Z := match s with SIdle => 0 | SRead => 1 | SPublish => 2 end.
+Definition res_code (r : option err) : Z := match r with Some e => err_code e | None => 0 end.
+Definition cat_code (c : option catinfo) : Z := match c with Some (b, n) => 1 + bz b + 2 * nz n | None => 0 end.
+Definition lock_code (l : lockst) : Z := match l with LFree => 0 | LEnv => 1 | LThread i => 2 + nz i end.
+Definition lz (l : list Z) : list Z := nz (List.length l) :: l.
+
+Fixpoint zl_eqb (a b : list Z) : bool :=
+  match a, b with
+  | [], [] => true
+  | x :: a', y :: b' => (x =? y) && zl_eqb a' b'
+  | _, _ => false
+  end.
+
+(* the part of a goroutine's state that can differ between two runs of the same script *)
+Definition thread_key1 (t : thread) : list Z :=
+  [nz (List.length (t_ops t)); match t_alt t with Some _ => 1 | None => 0 end; res_code (t_res t); bz (t_holds t)].
+Definition thread_key2 (t : thread) : list Z :=
+  [bz (t_on t); bz (t_fed t); bz (t_eof t); cat_code (t_cat t); nz (List.length (t_wrote t));
+   match t_pm t with Some _ => 1 | None => 0 end]
+  ++ lz (t_name t) ++ lz (t_query t)
+  ++ match t_snap t with Some (s, n, q) => (1 + st_code s) :: lz n ++ lz q | None => [0] end.
+Definition sess_key (g : sess) : list Z :=
+  [lock_code (g_lock g); bz (g_setup g); bz (g_ready g); cat_code (g_cat g); bz (g_ctx g); st_code (g_st g);
+   match g_tracks g with Some k => 1 + nz k | None => 0 end; nz (g_ntr g); bz (g_pathset g)]
+  ++ lz (g_name g) ++ lz (g_query g).
+
+Definition conf := (sess * list thread)%type.
+Definition conf_key (x : conf) : list Z :=
+  flat_map thread_key1 (snd x) ++ sess_key (fst x) ++ flat_map thread_key2 (snd x).
+
+(* statements that touch nothing another goroutine can see *)
+Definition is_local (o : op) : bool :=
+  match o with OWrite _ | ORet _ | OCallPM _ | ORead | ODrain => true | _ => false end.
+Definition next_is_local (t : thread) : bool :=
+  match t_alt t, t_ops t with None, o :: _ => is_local o | _, _ => false end.
+
+(* after a visible statement a goroutine runs on while it holds the mutex (a critical section is one move: what it
+   does inside is invisible until it unlocks) and through statements that are local to it *)
+Fixpoint cont (fuel : nat) (c : cfg) (g : sess) (i : nat) (t : thread) : sess * thread :=
+  match fuel with
+  | O => (g, t)
+  | S f => if t_holds t || next_is_local t
+           then match step c g i t 0 with XOk g' t' => cont f c g' i t' | _ => (g, t) end
+           else (g, t)
+  end.
+Definition macro (c : cfg) (x : conf) (i ch : nat) : option conf :=
+  match nth_error (snd x) i with
+  | Some t => match step c (fst x) i t ch with
+              | XOk g' t' => let (g2, t2) := cont 64 c g' i t' in Some (g2, upd i t2 (snd x))
+              | _ => None
+              end
+  | None => None
+  end.
+(* a select with several ready cases may take any of them; every other statement ignores the choice *)
+Definition choices (t : thread) : list nat :=
+  match t_alt t, t_ops t with
+  | None, (OWaitSetup | ORecvCatalog | OWaitPubReady | OWaitEofOrCtx) :: _ => [0%nat; 1%nat; 2%nat]
+  | _, _ => [0%nat]
+  end.
+Definition succs (c : cfg) (x : conf) : list conf :=
+  flat_map (fun i => match nth_error (snd x) i with
+                     | Some t => flat_map (fun ch => match macro c x i ch with Some y => [y] | None => [] end) (choices t)
+                     | None => []
+                     end)
+           (seq 0 (List.length (snd x))).
+
+(* seen: key, state, nothing left to run *)
+Definition entry := (list Z * conf * bool)%type.
+Definition seen_mem (k : list Z) (seen : list entry) : bool := existsb (fun e => zl_eqb k (fst (fst e))) seen.
+
+Fixpoint closure (fuel : nat) (c : cfg) (todo : list conf) (seen : list entry) : list entry :=
+  match fuel with
+  | O => seen
+  | S f => match todo with
+           | [] => seen
+           | x :: rest =>
+               let k := conf_key x in
+               if seen_mem k seen then closure f c rest seen
+               else let n := succs c x in
+                    closure f c (n ++ rest) ((k, x, match n with [] => true | _ => false end) :: seen)
+           end
+  end.
+
+Definition map_thread (i : nat) (f : thread -> thread) (x : conf) : conf :=
+  match nth_error (snd x) i with Some t => (fst x, upd i (f t) (snd x)) | None => x end.
+Definition act (a : action) (x : conf) : conf :=
+  match a with
+  | AStart i => map_thread i (fun t => t_env t true (t_fed t) (t_eof t)) x
+  | AFeed i => map_thread i (fun t => t_env t (t_on t) true (t_eof t)) x
+  | AEof i => map_thread i (fun t => t_env t (t_on t) (t_fed t) true) x
+  | ACancel => (set_ctx (fst x), snd x)
+  | AHold => (match g_lock (fst x) with LFree => set_lock (fst x) LEnv | _ => fst x end, snd x)
+  | ARelease => (match g_lock (fst x) with LEnv => set_lock (fst x) LFree | _ => fst x end, snd x)
+  end.
+
+Definition explore_fuel : nat := Z.to_nat 40000.
+(* the states in which nothing is left to run *)
+Definition settled (c : cfg) (xs : list conf) : list conf :=
+  map (fun e => snd (fst e)) (filter (fun e => snd e) (closure explore_fuel c xs [])).
+(* all states the session can be in after the script.  The driver goes on to its next action only when every handler
+   goroutine has returned or is parked (mutex, channel, stream): only settled states are carried over *)
+Definition explore (c : cfg) (x0 : conf) (script : list action) : list conf :=
+  fold_left (fun (S : list conf) a => settled c (map (act a) S)) script (settled c [x0]).
+
+Definition opt_err_eqb (a b : option err) : bool := res_code a =? res_code b.
+Definition trip_eqb (a b : option (list Z * list Z * bool)) : bool :=
+  match a, b with
+  | None, None => true
+  | Some (n, q, p), Some (n', q', p') => zl_eqb n n' && zl_eqb q q' && Bool.eqb p p'
+  | _, _ => false
+  end.
+Definition snap_eqb (a b : option (sstate * list Z * list Z)) : bool :=
+  match a, b with
+  | None, None => true
+  | Some (s, n, q), Some (s', n', q') => (st_code s =? st_code s') && zl_eqb n n' && zl_eqb q q'
+  | _, _ => false
+  end.
+Definition thread_matches (t : thread) (o : tobs) : bool :=
+  negb (o_panic o) && opt_err_eqb (t_res t) (o_res o) && zl_eqb (rev (t_wrote t)) (o_wrote o)
+  && trip_eqb (t_pm t) (o_pm o) && snap_eqb (t_snap t) (o_snap o).
+Fixpoint threads_match (ts : list thread) (os : list tobs) : bool :=
+  match ts, os with
+  | [], [] => true
+  | t :: ts', o :: os' => thread_matches t o && threads_match ts' os'
+  | _, _ => false
+  end.
+Definition sess_matches (g : sess) (f : gobs) : bool :=
+  (st_code (g_st g) =? st_code (f_st f)) && zl_eqb (g_name g) (f_name f) && zl_eqb (g_query g) (f_query f)
+  && Bool.eqb (g_setup g) (f_setup f) && Bool.eqb (g_ready g) (f_ready f) && Bool.eqb (g_ctx g) (f_ctx f).
+
+(* the observation is one of the model's final states: nothing left to run, every handler and the session as seen *)
+Definition race_allowed (c : cfg) (name query : list Z) (ss : list stream) (script : list action)
+                        (obs : list tobs) (fin : gobs) : bool :=
+  existsb (fun x => sess_matches (fst x) fin && threads_match (snd x) obs)
+          (explore c (sess0 name query, map (thread0 c AsFound) ss) script).
+
 Definition mismatch (c : case) : bool :=
   match c with
   | CFilter path passed panicked =>
@@ -180,6 +349,7 @@ Definition mismatch (c : case) : bool :=
   | CRtsp ctx_path status =>
       match exp_rtsp ctx_path with Ok s => negb (s =? status) | Panic => true end
   | CCrash _ _ _ => false
+  | CMoqRace c name query ss script obs fin => negb (race_allowed c name query ss script obs fin)
   end.
 
 (* ---- the property on the observation alone ----------------------------------------------------------- *)
@@ -203,4 +373,6 @@ Definition spec_fail (c : case) : bool :=
   | CSrt _ _ panicked => panicked
   | CRtsp _ status => status =? 0            (* 0 = no answer: the connection or the process died *)
   | CCrash _ alive answers => negb (alive && answers)
+    (* no stream handler, API call or Close() of the raced session panicked *)
+  | CMoqRace _ _ _ _ _ obs _ => existsb o_panic obs
   end.
